@@ -654,6 +654,18 @@ def macroize(text, rng, n):
                 break
             if not done:
                 names.append(nm)
+        elif kind < 0.32:
+            # a macro with TWO parameters: two attribute lines that follow each other, written as one call `${m v1 v2}`
+            attr = re.compile(r"^(\s*)(effort|allocate|priority)(\s+)(\S+)\s*$")
+            cands = [i for i in range(hdr_end, len(lines) - 1) if attr.match(lines[i]) and attr.match(lines[i + 1])
+                     and attr.match(lines[i]).group(2) != attr.match(lines[i + 1]).group(2)]
+            if cands:
+                i = rng.choice(cands)
+                m1, m2 = attr.match(lines[i]), attr.match(lines[i + 1])
+                defs.append(f"macro {nm} [{m1.group(2)} $1\n{m2.group(2)} $2]")
+                lines[i:i + 2] = [m1.group(1) + "${" + nm + " " + m1.group(4) + " " + m2.group(4) + "}"]
+            else:
+                names.append(nm)
         elif kind < 0.5:
             # a run of whole lines with balanced braces
             for _try in range(20):
